@@ -45,6 +45,9 @@ fn main() {
         "cache" => streams::cache::run(&mut r, n, &mut out),
         "cache-threads" => streams::cache::run_threads(&mut r, n, &mut out),
         "upstream" => streams::upstream::run(&mut r, n, &mut out),
+        "resolve-local" => streams::resolve::run(&mut r, n, "local", &mut out),
+        "resolve-universe" => streams::resolve::run(&mut r, n, "universe", &mut out),
+        "resolve-faults" => streams::resolve::run(&mut r, n, "faults", &mut out),
         other => {
             eprintln!("unknown stream {other}");
             std::process::exit(2);
